@@ -124,8 +124,20 @@ theorem C05_any_history_of_a_parsed_document (data : Bytes) (v : Spec.STree) (hp
   obtain ⟨H, hu, hs, ha⟩ := acyc_unmarshal data v hp
   exact ⟨H, hu, fun es hn => let r := history_sound es H hs ha hn; ⟨r.1, r.2.1⟩⟩
 
-/-- … and `Clone()` may be mixed in anywhere: any history of edit requests and clones, each addressed to any nodes that exist at
-that moment (the copies made earlier included), leaves a sound acyclic heap -/
+/-- **SetArray and SetObject with any elements** (`Proofs/SetContainer`): on any receiver of a sound acyclic heap, with any nodes as
+elements or members — fresh, detached, attached anywhere (they are moved), former children of the receiver, several times the same
+node — the heap afterwards is sound and acyclic, whether the request is accepted or rejected. The receiver is marked before the loop
+over the elements, and with a DIRTY receiver every single `appendNode` step leaves a heap that satisfies the full invariant (the
+relaxation `StructBut` concerns a clean receiver only), so the steps compose; dirty flags only go up (`DirtyMono`). -/
+theorem C05_set_array_set_object {h : Heap} (hs : Struct h) (ha : Acyc h) (n : Nat) (hn : n < h.size) (ids : List Id) (kv : List (Bytes × Id))
+    (hids : ∀ c ∈ ids, (c : Nat) < h.size) (hkv : ∀ p ∈ kv, (p.2 : Nat) < h.size) :
+    (Struct (h.update (some n) (.arr ids)).1 ∧ Acyc (h.update (some n) (.arr ids)).1 ∧ (h.update (some n) (.arr ids)).1.size = h.size) ∧
+    (Struct (h.update (some n) (.obj kv)).1 ∧ Acyc (h.update (some n) (.obj kv)).1 ∧ (h.update (some n) (.obj kv)).1.size = h.size) :=
+  ⟨setArray_sound hs ha n hn ids hids, setObject_sound hs ha n hn kv hkv⟩
+
+/-- … and `Clone()`, SetArray and SetObject may be mixed in anywhere: any history of edit requests, clones and container
+assignments (`Step`), each addressed to any nodes that exist at that moment (the copies made earlier included), leaves a sound acyclic
+heap -/
 theorem C05_any_history_with_clones (ss : List Step) (h : Heap) (hs : Struct h) (ha : Acyc h) (hv : ValidSteps h ss) :
     Struct (ss.foldl Step.run h) ∧ Acyc (ss.foldl Step.run h) :=
   let r := steps_sound ss h hs ha hv; ⟨r.1, r.2.1⟩
